@@ -448,7 +448,7 @@ class Arena:
                     pass
         return results, p.returncode, p.stderr.decode(errors="replace")
 
-    def run(self, jobs, budget_ms=20000, mem_gb=6, asan_log=None):
+    def run(self, jobs, budget_ms=20000, mem_gb=6, asan_log=None, retry=True):
         """jobs: list of (id, module, entry, seed, 'pa' modes, source).  Returns (results by id, incidents)."""
         import resource
         results = {}
@@ -490,7 +490,7 @@ class Arena:
                 break
             culprit = jobs[start + done]
             retried = None
-            nretry = getattr(self, "_nretry", 0)
+            nretry = getattr(self, "_nretry", 0) if retry else 99
             if hang and nretry >= 3:
                 hang_only = True       # enough budget spent on repeats in this arena
             if hang and nretry < 3:
